@@ -118,6 +118,10 @@ def run(ctx):
         st = ctx.need_fn(v, 'myth_felock_status_body')
         ctx.ob('C09.3', 'status returns fe->status', any(isinstance(val, str) and is_load_of(st, val, FE + 'status') for val, a in ret_cases(st)),
                'status accessor reads the same field', loc=st.loc)
+        ctx.ob('C09.3', 'status does not take the lock or wait', not st.calls(),
+               'the accessor is a plain read: it is meant to be used by a participant that holds the full/empty lock (a getter that '
+               'locks the non-recursive mutex blocks that participant on itself)', loc=st.loc,
+               detail='calls ' + ', '.join(c.callee or '?' for c in st.calls()))
         ini = ctx.need_fn(v, 'myth_felock_init_body')
         ci = call_sites(ini, 'myth_cond_init_body')
         idxs = sorted(str(cond_index(ini, c.args[0], 'a0')) for c in ci)
@@ -133,6 +137,8 @@ def run(ctx):
 
 SYNC = 'src/myth_sync_func.h'
 MUTANTS = [
+    {'name': 'status getter takes the felock mutex (seed3 C09/m2)', 'expect': 'C09.3',
+     'edits': [(SYNC, "static inline int myth_felock_status_body(myth_felock_t * fe) {\n  return fe->status;", "static inline int myth_felock_status_body(myth_felock_t * fe) {\n  myth_mutex_lock_body(fe->mutex);\n  int s_ = fe->status;\n  myth_mutex_unlock_body(fe->mutex);\n  return s_;")]},
     {'name': 'native myth_felock_unlock forwards to lock', 'expect': 'C09.5',
      'edits': [('src/myth_if_native.c', "  return myth_felock_unlock_body(fe);", "  return myth_felock_lock_body(fe);")]},
     {'name': 'felock_init forgets the status', 'expect': 'C09.4',
